@@ -40,23 +40,31 @@ def enc(s):
 
 def nibble_moves(b):
     """values that have the same rendering as `b` when its parts are printed WITHOUT zero padding: a zero nibble taken out at one place and
-    put back a little later — `0a bc` -> `ab 0c` (each byte printed with `{:x}`), and the same across 32-, 64- and 128-bit part boundaries.
-    What a comparison through an unpadded hex / decimal string confuses; no bit flip, byte change or reversal produces these."""
-    h = b.hex()
+    put back a little later or earlier — `0a bc` -> `ab 0c` (each byte printed with `{:x}`), and the same across 32-, 64- and 128-bit part
+    boundaries, reading the bytes in either order (little-endian array or big number).  What a comparison through an unpadded hex /
+    decimal string confuses; no bit flip, byte change or reversal produces these."""
     out = []
-    zeros = [p for p in range(len(h) - 2) if h[p] == "0"][:3]
-    for p in zeros:
-        for d in (3, 2, 8, 9, 16, 17, 32, 33):
-            q = p + d
-            if q <= len(h):
-                h2 = h[:p] + h[p + 1:q] + "0" + h[q:]
-                if h2 != h and len(h2) == len(h):
-                    out.append(bytes.fromhex(h2))
+    for rev in (False, True):
+        h = (b[::-1] if rev else b).hex()
+        zeros = [p for p in range(len(h)) if h[p] == "0"]
+        zeros = zeros[:2] + zeros[-1:]
+        for p in zeros:
+            for d in (3, 2, 8, 9, 16, 17, 32, 33):
+                for q in (p + d, p - d + 1):
+                    if q > p and q <= len(h):
+                        h2 = h[:p] + h[p + 1:q] + "0" + h[q:]
+                    elif 0 <= q < p:
+                        h2 = h[:q] + "0" + h[q:p] + h[p + 1:]
+                    else:
+                        continue
+                    if h2 != h and len(h2) == len(h):
+                        x = bytes.fromhex(h2)
+                        out.append(x[::-1] if rev else x)
     seen, res = set(), []
     for x in out:
         if x not in seen:
             seen.add(x); res.append(x)
-    return res[:10]
+    return res[:24]
 
 def two_place_flips(rng, b, n=12):
     """the same change applied in two places 1/2/4/8 bytes apart, and patterns whose per-byte / per-word
